@@ -394,9 +394,9 @@ func first(p []byte) byte {
 }
 
 var lengths = []int{0, 1, 47, 48, 49, 52, 75, 76, 77, 100, 1024, 2047, 2048, 2049, 4000}
-var kinds = []string{"none", "zeros", "random", "nts-valid", "nts-bitflip", "nts-foreign-cookie-key", "nts-foreign-c2s"}
+var kinds = []string{"none", "zeros", "random", "nts-valid", "nts-valid-padded-authenticator", "nts-bitflip", "nts-foreign-cookie-key", "nts-foreign-c2s"}
 
-var recGrid = ev.New("c09/grid", "enumeration of every first header byte (256: all LI x VN x mode) x datagram length {0,1,47,48,49,52,75,76,77,100,1024,2047,2048,2049,4000} x trailing data {zero bytes, mixer bytes} plus, per first byte, well-formed NTS requests (cookie sealed under the server's current key, 1..6 placeholders), NTS requests with one flipped bit, with a cookie sealed under a foreign key and authenticated under a foreign C2S key; remaining 47 header bytes from a deterministic mixer of VERIF_SEED. Each probe is followed by a sentinel request from the same socket; the datagrams received before the sentinel's reply are the replies to the probe. Oracle: number of replies == shouldReply(p) (written from the statement), reply from the server's address/port to the sending socket, echoing the transmit timestamp, VN 4 / mode 4 / stratum 1 (so the reply is itself not answerable), NTS replies authenticate under S2C with the request identifier; a second socket on the sender's address receives nothing. Non-trivial: probes of >= 48 bytes; distinct by (first byte, length, trailing kind); the grid is enumerated completely (quick: a third of the first bytes per run, rotating with VERIF_SEED; thorough: all)")
+var recGrid = ev.New("c09/grid", "enumeration of every first header byte (256: all LI x VN x mode) x datagram length {0,1,47,48,49,52,75,76,77,100,1024,2047,2048,2049,4000} x trailing data {zero bytes, mixer bytes} plus, per first byte, well-formed NTS requests (cookie sealed under the server's current key, 1..6 placeholders), the same with 4..32 bytes of additional padding in the authenticator field (RFC 8915 5.6), NTS requests with one flipped bit, with a cookie sealed under a foreign key and authenticated under a foreign C2S key; remaining 47 header bytes from a deterministic mixer of VERIF_SEED. Each probe is followed by a sentinel request from the same socket; the datagrams received before the sentinel's reply are the replies to the probe. Oracle: number of replies == shouldReply(p) (written from the statement), reply from the server's address/port to the sending socket, echoing the transmit timestamp, VN 4 / mode 4 / stratum 1 (so the reply is itself not answerable), NTS replies authenticate under S2C with the request identifier; a second socket on the sender's address receives nothing. Non-trivial: probes of >= 48 bytes; distinct by (first byte, length, trailing kind); the grid is enumerated completely (quick: a third of the first bytes per run, rotating with VERIF_SEED; thorough: all)")
 
 func TestExhaustiveGrid(t *testing.T) { gridBody(t, recGrid, lengths) }
 
@@ -469,7 +469,18 @@ func gridBody(t *testing.T, recGrid *ev.Recorder, lengths []int) {
 		hdr[0] = byte(b0)
 		for _, k := range kinds[3:] {
 			p, ses, uid := ntsRequest(hdr, seed*31+uint64(b0), k == "nts-foreign-cookie-key", k == "nts-foreign-c2s")
-			valid := k == "nts-valid"
+			valid := k == "nts-valid" || k == "nts-valid-padded-authenticator"
+			if k == "nts-valid-padded-authenticator" {
+				// RFC 8915 5.6: the authenticator field may carry additional padding behind the ciphertext (a
+				// client pads to keep its requests at least as long as the replies); the field's own header is
+				// not part of the associated data, so the request stays authentic
+				pad := []int{4, 8, 16, 32}[int(mix(seed+uint64(b0))%4)]
+				l := findAuth(p)
+				if len(p)+pad <= nts.MaxPacketLen {
+					binary.BigEndian.PutUint16(p[l+2:], binary.BigEndian.Uint16(p[l+2:])+uint16(pad))
+					p = append(p, make([]byte, pad)...)
+				}
+			}
 			if k == "nts-bitflip" {
 				bit := int(mix(seed+uint64(b0)) % uint64(8*(len(p)-48-4)))
 				// any bit of the extension fields except the authenticator's own length field (not covered, not used)
